@@ -80,4 +80,6 @@ if __name__ == "__main__":
     if len(sys.argv) >= 4 and sys.argv[1] == "--emit":
         emit(sys.argv[2], int(sys.argv[3]))
         sys.stdout.flush()
+        from .runner import _remove_process_scratch
+        _remove_process_scratch()
         os._exit(0)
